@@ -307,4 +307,21 @@ def normalizeOptimize (arch : String) (sp : Variable) (phys : VarSet) (p : Progr
   let p₄ := propagateControlFlow p₃
   (substituteAndOnStackpointer arch sp p₄).1
 
+/-- `normalize_optimize` with the tables of the expression-propagation fixpoint as a parameter (the tables of
+the REAL fixpoint, or those of the model's own iteration: `normalizeOptimize = normalizeOptimizeWith
+(computeTables …)`) -/
+def normalizeOptimizeWith (m : TableMap) (arch : String) (sp : Variable) (phys : VarSet) (p : Program) : Program :=
+  let p₁ := propagateProgramWith m (mergeAssignmentsProgram p)
+  let p₂ := substTrivialProgram p₁
+  let p₃ := removeDeadProgram phys p₂
+  let p₄ := propagateControlFlow p₃
+  (substituteAndOnStackpointer arch sp p₄).1
+
+/-- every entry of every table is size-consistent and has the size of its variable (executable form of
+`C12.AllWS`) -/
+def allWSB (m : TableMap) : Bool :=
+  m.all fun q => match q.2 with
+    | none => true
+    | some t => t.all fun e => C12.wellSizedExpr e.2 && e.2.bytesize == e.1.size
+
 end CweModel.C10
